@@ -26,6 +26,10 @@ func VerifH_C13_Rollback() {
 	k := rt.Choice("snapshots", rt.Param("max_snapshots", 3)) + 1
 	var epochs []uint64
 	var seqs []byte
+	// segment ids: normally ascending with the snapshots, but an older snapshot may hold a higher id
+	// than the newest one (segments whose documents were all deleted drop out of later snapshots)
+	oldHigh := rt.Choice("old_snapshot_has_highest_segment_id", 2) == 1
+	var maxSegID uint64
 	idx := -1
 	for i := 0; i < k; i++ {
 		// strictly ascending choice of epochs
@@ -38,7 +42,14 @@ func VerifH_C13_Rollback() {
 			e = epochs[len(epochs)-1] + 1
 		}
 		seq := rt.U8("seq")
-		snap := verifPersistedSnapshot(s, e, uint64(i+1), []byte{'a'}, map[string][]byte{"seq": {seq}})
+		segID := uint64(i + 1)
+		if oldHigh && i == 0 {
+			segID = 9
+		}
+		if segID > maxSegID {
+			maxSegID = segID
+		}
+		snap := verifPersistedSnapshot(s, e, segID, []byte{'a'}, map[string][]byte{"seq": {seq}})
 		rt.Assert(s.persistSnapshotDirect(snap) == nil, "persistSnapshotDirect")
 		epochs = append(epochs, e)
 		seqs = append(seqs, seq)
@@ -90,8 +101,10 @@ func VerifH_C13_Rollback() {
 	rt.Assert(rt.EqBytes(s2.root.internal["seq"], []byte{seqs[t]}), "the reopened index has the rollback point's internal values")
 	rt.Assert(s2.nextSnapshotEpoch == epochs[t]+1, "new snapshots continue after the rollback point")
 	rt.Assert(len(s2.root.segment) == 1, "the rollback point's segment is loaded")
+	rt.Assert(s2.nextSegmentID > maxSegID, "segments written after reopening never take the file name of a segment file that exists (a retained rollback point may still need it)")
 	_ = s2.rootBolt.Close()
 	rt.Cover(rt.And(k == 3, t == 1), "middle-point")
 	rt.Cover(rt.And(k >= 2, t == 0), "oldest-point")
+	rt.Cover(rt.And(k >= 2, t >= 1, oldHigh), "older-snapshot-holds-highest-segment-id")
 	_ = util.BoltSnapshotsBucket
 }
